@@ -260,13 +260,18 @@ impl<'a, W: Write> Writer<'a, W> {
     /// written, then call [`flush`](Writer::flush).
     pub fn unvalidated_append_value_ref(&mut self, value: &Value) -> AvroResult<usize> {
         let n = self.maybe_write_header()?;
-        encode_internal(
+        let original_len = self.buffer.len();
+        if let Err(e) = encode_internal(
             value,
             self.schema,
             self.resolved_schema.get_names(),
             self.schema.namespace(),
             &mut self.buffer,
-        )?;
+        ) {
+            // Do not leave a partially encoded value in the block
+            self.buffer.truncate(original_len);
+            return Err(e);
+        }
 
         self.num_values += 1;
 
@@ -295,11 +300,14 @@ impl<'a, W: Write> Writer<'a, W> {
             human_readable: self.human_readable,
         };
 
-        value.serialize(SchemaAwareSerializer::new(
-            &mut self.buffer,
-            self.schema,
-            config,
-        )?)?;
+        let original_len = self.buffer.len();
+        let result = SchemaAwareSerializer::new(&mut self.buffer, self.schema, config)
+            .and_then(|serializer| value.serialize(serializer));
+        if let Err(e) = result {
+            // Do not leave a partially serialized value in the block
+            self.buffer.truncate(original_len);
+            return Err(e);
+        }
         self.num_values += 1;
 
         if self.buffer.len() >= self.block_size {
